@@ -434,7 +434,14 @@ def model_script(sc, tr):
             items = [(st[1], st[2])] if k == "msg" else batch_order(st[1])
             if len(items) > 1:
                 lines.append("oracle " + sends)
+            maxmsg = int(cfgv["CONFIG_MAX_MESSAGE_SIZE"])
             for c, value in items:
+                text = value if isinstance(value, bytes) else jtext(value)
+                if len(text) > maxmsg:
+                    # the reader refuses a length above the read buffer: the connection ends (C09), nothing is parsed
+                    lines.append("disc %d %s" % (c, sends if len(items) == 1 else "="))
+                    opmap.append(si)
+                    continue
                 if isinstance(value, bytes):
                     toks = parse_with_cjson_semantics(value)
                 else:
